@@ -291,6 +291,12 @@ impl SwarmDriver {
         (self.quotes_history.get(peer).cloned(), issues, bad)
     }
 
+    /// Let the deadline of one in-flight replication fetch of this node pass (instead of waiting 20 s).
+    pub fn verif_expire_fetch(&mut self, key: &RecordKey, record_type: &RecordType) -> bool {
+        self.replication_fetcher
+            .verif_expire_on_going(key, record_type)
+    }
+
     /// Queue and in-flight set of the node's replication fetcher: (key, type, holder)
     #[allow(clippy::type_complexity)]
     pub fn verif_fetcher_view(
